@@ -21,6 +21,8 @@ def run(ck):
     progs = contract.programs(ck.seed, 140 if q else 2500, "fermionic", syms=syms, tids=tids)
     progs += contract.matmul_programs(ck.seed, 40 if q else 600, "fermionic", syms=syms, tids=tids)
     progs += contract.sparse_rank4_programs(ck.seed, 80 if q else 1500, "fermionic", syms=syms, tids=tids)
+    from harness.drivers import network
+    progs += network.norm_programs(ck.seed, 60 if q else 1000, tids=tids)
     progs += fermi.transpose_programs(ck.seed, 60 if q else 1000, tids=tids)
     progs += fermi.einsum_programs(ck.seed, 40 if q else 600, "fermionic", tids=tids)
     ck.cov["rule"] = ("random sparse fermionic arrays (even/odd, pending signs, labels) over all symmetries; "
